@@ -366,6 +366,29 @@ def check_tearsheet(vals, shape):
         ok = ratio_ok(got, *want) if isinstance(want, tuple) else eq(got, want)
         if not ok:
             msgs.append("tearsheet row %r = %r, definition %r for NLV path %s (%s)" % (key, float(got), want, list(vals), shape))
+    # tearsheet with a risk-free LEVEL series over the whole history and a benchmark that starts one observation later: every
+    # row is computed on the common window, also the risk-free CAGR and the ratios built on it
+    if not msgs and len(vals) >= 4 and shape in ("daily", "month"):
+        try:
+            n = len(vals)
+            level = pd.Series(list(vals), index=pd.DatetimeIndex(stamps), name="lvl")
+            rf_vals = [100.0 * (1.0 + 0.001 * i * i) for i in range(n)]        # a rate that changes over time
+            rf = pd.Series(rf_vals, index=pd.DatetimeIndex(stamps), name="rf")
+            bench = pd.Series(list(vals)[::-1][1:], index=pd.DatetimeIndex(stamps[1:]), name="bench")
+            ts2 = level.to_frame().tearsheet(benchmark=bench, risk_free=rf)
+            refw, _, _, _ = ref_metrics(list(vals)[1:], stamps[1:])
+            rf_cagr = ref_metrics(rf_vals[1:], stamps[1:])[0]["cagr"]
+            col2 = ts2.columns[0]
+            for key, want in ((("Context", "Risk-free CAGR"), rf_cagr), (("Return", "CAGR"), refw["cagr"]),
+                              (("Return", "CAGR over cash"), refw["cagr"] - rf_cagr),
+                              (("Risk-adjusted return", "Sharpe ratio"), (refw["cagr"] - rf_cagr, refw["volatility"]))):
+                got = ts2.loc[key, col2]
+                ok = ratio_ok(got, *want) if isinstance(want, tuple) else eq(got, want)
+                if not ok:
+                    msgs.append("tearsheet(benchmark starting later, risk-free level series) row %r = %r, on the common window it is %r (%s, %s)"
+                                % (key, float(got), want, list(vals), shape))
+        except Exception as ex:
+            msgs.append("tearsheet(benchmark, risk-free series) raised %r for %s (%s)" % (ex, list(vals), shape))
     return msgs
 
 
